@@ -82,7 +82,7 @@ claimed = {
              ref='3 C20'),
  'C10': dict(tech='contract-based deductive verification: zero-annotation safety sweep (nil, index, slice, make, division, type assertion, callee preconditions) over the receive call tree, VCs from go/ssa, z3/cvc5',
              text='Generated safety obligations of every parser / value decoder reachable from the packet reader are discharged for arbitrary stream contents; structural preconditions are carried by type invariants and typestate ghosts checked at constructors. Proof level: per-function obligations, unbounded.',
-             note='Assumes library functions do not panic when their stated preconditions hold, String()/Error() methods do not panic, non-nil receivers (obligation at static call sites). Allocation proportionality and the packet reader loop are listed separately in the evidence; known findings are printed as KNOWN-FINDING.',
+             note='Assumes library functions do not panic when their stated preconditions hold, String()/Error() methods do not panic, non-nil receivers (obligation at static call sites). The allocation clause is only exercised by a bounded island (prefixes and single-byte mutations of 13 sample encodings through the real parsers, labelled bounded); it records one known finding (PacketQueue.Bytes allocates the declared length before the bytes are available), printed as KNOWN-FINDING. Failed parser obligations are replayed on the real code by the same harness.',
              ref='3 C10'),
 }
 na_reason = 'contracts designed in DESIGN.md section 3 but not yet mechanised in this revision; no check is claimed'
